@@ -1892,6 +1892,10 @@ def p_instanceDeclaration(p):
                     # If array type insert list, else insert item 0 from list
                     pprop.value = objs if cprop.is_array else objs[0]
                     pprop.embedded_object = embedded_object_type
+                else:
+                    # NULL in the instance overrides a default value of the
+                    # property in the class
+                    pprop.value = None
             else:
                 if pval:
                     ival_is_array = isinstance(pval, list)
